@@ -52,6 +52,17 @@ pub(super) enum WaitResult {
     Cancelled,
 }
 
+#[cfg(feature = "verif-hooks")]
+impl WaitResult {
+    pub(crate) fn verif_name(self) -> &'static str {
+        match self {
+            WaitResult::Completed => "Completed",
+            WaitResult::Panicked => "Panicked",
+            WaitResult::Cancelled => "Cancelled",
+        }
+    }
+}
+
 #[derive(Debug)]
 pub(crate) enum BlockResult<'me> {
     /// The query is running on another thread.
@@ -330,6 +341,14 @@ impl Runtime {
         if dg.depends_on(other_id, thread_id) {
             crate::tracing::debug!(
                 "block_on: cycle detected for {database_key:?} in thread {thread_id:?} on {other_id:?}"
+            );
+            #[cfg(feature = "verif-hooks")]
+            crate::verif::proto(
+                "dg_cycle",
+                Some(database_key),
+                None,
+                [crate::verif::tid(thread_id), crate::verif::tid(other_id), 0, 0],
+                "",
             );
             return BlockResult::Cycle;
         }
